@@ -79,7 +79,7 @@ func verifC04EndingPath(op *vs.Op, sid string) string {
 		return "service-dereg"
 	case vs.Register:
 		for _, ck := range op.P.Reg.Checks {
-			if ck.Status == api.HealthCritical {
+			if ck.Status == api.HealthCritical || ck.Status == "" {
 				return "check-critical"
 			}
 		}
